@@ -1,6 +1,6 @@
 """Single source of truth for MANIFEST.json (tools/mkmanifest.py)."""
 
-FIX_COMMITS = ['cca4fac (C19 bbox int coercion)', '1b3ab08 (C05 cutout fill dtype)', '81c7236 (C05 multiply Quantity fill)', '1970dc7 (C20 PixCoord.rotate any shape)', 'c13e427 (C01 polygon scalar contains)']
+FIX_COMMITS = ['cca4fac (C19 bbox int coercion)', '1b3ab08 (C05 cutout fill dtype)', '81c7236 (C05 multiply Quantity fill)', '1970dc7 (C20 PixCoord.rotate any shape)', 'c13e427 (C01 polygon scalar contains)', 'b692b96 (C14 FITS lexists)', 'd5e55fe (C14 encode before open)']
 HOOK_COMMITS = []
 
 CHECKS = [
@@ -43,6 +43,23 @@ CHECKS = [
              'mask.bbox == region.bounding_box and no weight outside are checked on the real code (kernels are C02/C03).',
      'note': 'Trusted: Lean kernel/Mathlib/3 std axioms; hand model Extent.lean tied by the correspondence run (exact box equality; a side whose extent is within 1e-9 of a pixel edge is excepted '
              'only when the float arithmetic is inexact); np.sqrt/cos/sin to a few ulp.'},
+    {'property_id': 'C15',
+     'technique': 'Lean 4 theorems (linear_combination with c^2+s^2=1, structural induction over region expressions, floor/sqrt-floor translation lemmas); correspondence run',
+     'text': 'PixCoord.rotate is proved an isometry that fixes the centre, composes additively and is inverted by the opposite angle; a rotated circle/ellipse/rectangle/annulus/'
+             'point/line/text and any compound of them (induction, any depth) contains a rotated position exactly when the original contained the unrotated one; class, operator and include flags '
+             'are preserved, area unchanged, rotating back restores every parameter (all classes incl. polygons: vertex map). Translation: membership follows a translation for EVERY class '
+             '(polygons included) and the bounding box of any region expression moves by exactly the integer shift (incl. the exact sqrt-floor ellipse box). '
+             'NOT theorems: rotation invariance of the even-odd answer for polygons (partial theorem carries polygonFree), mask arrays unchanged under translation (checked on the real code).',
+     'note': 'Trusted: Lean kernel/Mathlib/3 std axioms; hand model Region.lean (rotate/shift) tied by the correspondence run: rotated parameters within 1e-9*scale of the exact model values, '
+             'membership compared outside a rounding band; original object fingerprinted before/after.'},
+    {'property_id': 'C14',
+     'technique': 'Lean 4 theorems about a write-protocol step machine over an abstract file system; step order and identify tables regenerated from the source AST / live package on every run (translator) and decided; correspondence run on a real temp-dir matrix',
+     'text': 'For every file system, path state (absent/file/symlink chain/dangling), list length and failing position: a write to an existing destination without overwrite raises OSError and changes nothing; '
+             'a write that fails for any cause (serialisation at any position, encoding, bad option) changes nothing even with overwrite=True (because serialise/encode precede open in the GENERATED step order); '
+             'success writes exactly encode(serialize items) at the end of the symlink chain; read(write) = parse(serialize) for format given / from extension / from content; identify tables consistent and first-match routing cannot mis-route (decide over generated tables). '
+             'OS semantics, astropy writeto, serialisers/parsers and gzip are parameters (laws stated as hypotheses, exercised for real).',
+     'note': 'Partial: OS file semantics and astropy.io.fits.writeto are parameters of the model (astropyWriteto proved to satisfy the assumed WritetoLaw); trusted extractor tools/c14_extract.py; '
+             'Lean kernel + propext/Quot.sound only. F18/F40 fixed in /repo (b692b96, d5e55fe).'},
 ]
 
 _PENDING = 'check not built yet in this session (see DESIGN.md build order); not a statement that the technique cannot apply'
